@@ -37,18 +37,24 @@ def chi2_ref(fixed, mobile, restraints):
 
 
 def same_shape(a, b, tol):
-    """All pairwise distances equal (tol) and, for >= 4 atoms, equal handedness."""
+    """b is a proper rigid motion of a: all pairwise distances equal (tol) and, for >= 4
+    atoms, the best *proper* rotation (Kabsch, det = +1) superposes them within 10*tol."""
+    a = np.asarray(a, float)
+    b = np.asarray(b, float)
     n = len(a)
-    for i in range(n):
-        for j in range(i + 1, n):
-            if abs(np.linalg.norm(a[i] - a[j]) - np.linalg.norm(b[i] - b[j])) > tol:
-                return False
+    if n > 1:
+        da = np.linalg.norm(a[:, None, :] - a[None, :, :], axis=2)
+        db = np.linalg.norm(b[:, None, :] - b[None, :, :], axis=2)
+        if np.abs(da - db).max() > tol:
+            return False
     if n >= 4:
-        for q in itertools.combinations(range(n), 4):
-            va = np.linalg.det(np.array([a[q[1]] - a[q[0]], a[q[2]] - a[q[0]], a[q[3]] - a[q[0]]]))
-            vb = np.linalg.det(np.array([b[q[1]] - b[q[0]], b[q[2]] - b[q[0]], b[q[3]] - b[q[0]]]))
-            if abs(va - vb) > 10 * tol * max(1.0, abs(va)):
-                return False
+        ac = a - a.mean(axis=0)
+        bc = b - b.mean(axis=0)
+        u, _, vt = np.linalg.svd(ac.T @ bc)
+        d = np.sign(np.linalg.det(u @ vt))
+        rot = u @ np.diag([1.0, 1.0, d]) @ vt
+        if np.abs(ac @ rot - bc).max() > 10 * tol * max(1.0, np.abs(ac).max()):
+            return False
     return True
 
 
